@@ -340,6 +340,11 @@ func c09RecvPair(m *pbfModel, o types.Object, cls string, seen map[types.Object]
 	}
 	for _, d := range defs {
 		switch d.kind {
+		case "zero":
+			// `var p T` followed by a receive into p
+			if len(defs) == 1 {
+				return false
+			}
 		case "range-key", "recv":
 			if (d.kind == "recv" && d.idx != 0) || m.chanClass(nil, d.e) != cls {
 				return false
